@@ -42,11 +42,25 @@ Reading aid.
 
 What is claimed where.  (a) `augment_monotone`, (b) `graft_paths` + `graft_stamps` +
 `grafted_namespace` + `view_eq_paths`, (c) `loop_is_complete_run` + `loop_no_truncation` + `model_fuel_sufficient`,
-(d) `augment_loop_confluent` + `augment_loop_confluent_free` + `collision_in_every_order`, (e) `augment_exactly_once`,
+(d) `augment_loop_confluent` + `augment_loop_confluent_free` + `collision_in_every_order`,
+(d′, on the ERROR LIST) `application_errors` + `failed_attempt_errors` (the bound on the errors one
+attempt can add — exact, not only from above), `loop_error_set` (which errors `GetErrors` sweeps after
+the loop), `augment_loop_confluent_errors` / `_observed` / `_model` (collision-free first order ⇒ every order ends
+with the same error set, the same `canonErrs` list, no `duplicate-node` error),
+`augment_loop_clean_iff` (one order ends without errors iff every order does),
+`collision_error_in_every_order` + `fresh_duplicate_error_in_every_order` (a collision in one order ⇔
+a new `duplicate-node` error, reported in every order), (e) `augment_exactly_once`,
 (f) `augment_reported` (+ `augment_reported_phase` on the parametrised model).
-Not proved (kept visible here): that the second order also ends without `duplicate-node` error
-is stated as "no application of the second order collides" (`EvFree`), not on its error list —
-that needs an upper bound on the errors one application can add (still open).  The invariant
+The error-list theorems (d′) take three well-formedness hypotheses on the pure-value forest that Go
+has for free from maps and pointers: one tree per id, `Spec.Tree.KeysUnique` of every tree (sibling
+names pairwise different, at most one rpc input / output), and `KeysUnique` of the children of the
+applied augment entries — `Entry.updateAt` rewrites every child of the name on its path and
+`Forest.setTree` every tree of the id, so without them a second, invisible copy of the target could
+collide on its own.  Props/C07Bridge.lean proves them of the state `processAll` enters the phase with
+(`phaseStart_wellformed`).  In a run with collisions the error SETS of two orders differ by design
+(the application that comes second is blamed: see the `Bad.collide` example); what is order
+independent then is that a `duplicate-node` error is reported.
+The invariant
 "child names are distinct at every level" (`NoDupNames`), which `view_eq_paths` takes as a
 hypothesis, is proved in Props/C07Bridge.lean: `merge` keeps it unconditionally
 (`noDupNames_merge`), every tree has it when the augment phase starts, and every tree in which no
@@ -58,9 +72,11 @@ the created entries).  `PhaseInput` (hypotheses of (f) about what `ToEntry` and 
 to the loop) is not derived here; Props/C07Bridge.lean derives it from the `ToEntry` model for the
 state `processAll` enters the phase with (`phaseInput_holds`) and restates (d), (e), (f) for
 `processAll` itself (`augment_loop_confluent_processAll`, `augment_exactly_once_processAll`,
-`augment_reported_processAll`).  What remains there are two decidable predicates on the loaded
-statements: `AugPosDistinct` (augment statements of one module stand at different positions) and
-`AugArgsPlain` (augment arguments are absolute schema node identifiers).
+`augment_reported_processAll`, and for (d′) `augment_clean_iff_processAll`,
+`augment_error_list_order_independent_processAll`).  What remains there are two decidable predicates
+on the loaded statements: `AugPosDistinct` (augment statements of one module stand at different
+positions) and `AugArgsPlain` (augment arguments are absolute schema node identifiers); C07Bridge
+shows by kernel-checked witnesses that neither can be dropped (`augPosDistinct_needed`, the `..` example).
 Outside the claim, as in the property text: the implicit case of a shorthand choice member as
 target (such an augment is applied by the leftover pass after FixChoice; (f) counts it as
 applied there) and uses-augment.
@@ -378,6 +394,26 @@ theorem augment_loop_confluent_errors_observed (R : Res) (fuel1 fuel2 : Nat) (mo
   obtain ⟨h1, h2⟩ := augment_loop_confluent_errors R fuel1 fuel2 mods1 mods2 s1 s2 hforest hpend hn1 hn2 hcov1 hcov2
     hfuel1 hfuel2 hids hku hbody hfr1
   exact ⟨h1, h2, fun er her => hfree er ((h1 er).mp her)⟩
+
+/-- The same for the model's `augmentLoop` (the hypothesis on the bodies is stated on the pending
+entries, since the model's loop returns no trace). -/
+theorem augment_loop_confluent_errors_model (reg : Registry) (fuel1 fuel2 : Nat) (mods1 mods2 : Array Nat) (s1 s2 : PState)
+    (hp1 : PlainPending reg s1) (hp2 : PlainPending reg s2)
+    (hforest : s2.forest = s1.forest) (hpend : ∀ id a, a ∈ s2.pendingOf id ↔ a ∈ s1.pendingOf id)
+    (hn1 : NodupPending s1) (hn2 : NodupPending s2) (hcov1 : Cover s1 mods1) (hcov2 : Cover s2 mods2)
+    (hfuel1 : mu s1 < fuel1) (hfuel2 : mu s2 < fuel2)
+    (hids : (s1.forest.trees.map (·.1)).Nodup) (hku : ∀ t ∈ s1.forest.trees, KeysUnique t.2)
+    (hbody : ∀ id, ∀ a ∈ s1.pendingOf id, ∀ c ∈ a.dir, KeysUnique c)
+    (hfree : ∀ er ∈ allErrs (augmentLoop reg fuel1 mods1 s1).2.forest, er.cls ≠ "duplicate-node") :
+    (∀ er, er ∈ allErrs (augmentLoop reg fuel2 mods2 s2).2.forest ↔ er ∈ allErrs (augmentLoop reg fuel1 mods1 s1).2.forest) ∧
+    canonErrs (allErrs (augmentLoop reg fuel2 mods2 s2).2.forest) =
+      canonErrs (allErrs (augmentLoop reg fuel1 mods1 s1).2.forest) ∧
+    (∀ er ∈ allErrs (augmentLoop reg fuel2 mods2 s2).2.forest, er.cls ≠ "duplicate-node") := by
+  rw [model_loop_eq reg fuel1 mods1 s1 hp1] at hfree ⊢
+  rw [model_loop_eq reg fuel2 mods2 s2 hp2]
+  have hbook := (loop_run (Res.ofReg reg) fuel1 mods1 s1 hn1 hcov1 hfuel1).2.1
+  exact augment_loop_confluent_errors_observed (Res.ofReg reg) fuel1 fuel2 mods1 mods2 s1 s2 hforest hpend hn1 hn2 hcov1 hcov2
+    hfuel1 hfuel2 hids hku (fun ev hev => hbody ev.owner ev.aug (hbook.fromPending ev hev)) hfree
 
 /-- **One order ends without errors iff every other order does.**  Only augment entries WITHOUT
 recorded errors are asked to have unique keys (an entry with errors is never applied in a clean run:
